@@ -185,7 +185,7 @@ claim("C09", "proof",
       "permutation under each C backend, the pre-computed initial values in each of the three state encodings against "
       "p^12 of the specified IV block, the masked-word toolkit and masked keys for every share count, and the "
       "acquire/release balance of the incremental sponge functions in the checker build (abort unreachable).",
-      "The x86-64 assembly permutation is re-proved through the lifter; other assembly backends are not; higher-level compositions are proved in the 64-bit C configuration only; "
+      "The assembly permutations of all twelve backends are re-proved through the lifters (quick tier: x86-64, RISC-V, AArch64, Xtensa); higher-level compositions are proved in the 64-bit C configuration only; "
       "acquire/release entry states are sampled and use a frame-only permutation stub.",
       "CBMC code contracts (DFCC) and full-domain assertions, repeated per build configuration", "4/C09")
 claim("C12", "proof",
